@@ -70,9 +70,7 @@ impl<T> Iterator for Items<T> {
   type Item = T;
   fn next(&mut self) -> Option<Self::Item> {
     #[cfg(ast_grep_verif)]
-    if crate::verif::active() {
-      return crate::verif::sim_recv(&self.0);
-    }
+    let _verif_recv = crate::verif::recv_guard();
     // TODO: add error reporting here
     self.0.recv().ok()
   }
